@@ -2012,6 +2012,27 @@ def run_norms(ctx, count):
                 if got[0] != "ok" or abs(float(got[1]) - want) > 1e-9 * scale * k or abs(float(got[1]) - want_svd) > 1e-9 * scale * k:
                     viol(ctx, f"kp_norm(k={kk}, p={p}) differs from the p-norm of the k largest singular values", "kp_norm",
                          {**desc, "k": kk, "p": str(p)}, str(got)[:100], want, "definition: (sum_{i<k} s_i^p)^(1/p)")
+        # Hermitian matrices with eigenvalues of both signs: the singular values are the moduli of the eigenvalues, sorted by modulus
+        if m >= 2 and _ % 2 == 0:
+            U = rand_unitary(rng, m, cplx, rich=False).to_np()
+            ev = np.array([float(x) for x in rng.permutation([-6.0, 1.0, 2.0, -0.5, 3.5, 0.0][:m])])
+            H = U @ np.diag(ev) @ U.conj().T
+            H = (H + H.conj().T) / 2
+            sh = np.sort(np.abs(ev))[::-1]
+            dh = {"op": "norms/hermitian-indefinite", "eigs": ev.tolist(), "m": m, "cplx": cplx}
+            ctx.case(dh, True, "ops/norms/hermitian-indefinite")
+            for kk in sorted(set([1, 2, m - 1, m])):
+                if kk < 1:
+                    continue
+                for p in (1, 2, np.inf):
+                    want = float(sh[:kk].max()) if p == np.inf else float((sh[:kk] ** p).sum() ** (1.0 / p))
+                    got = _psafe(ctx, prng, dh, kp_norm, H, kk, p)
+                    if got[0] != "ok" or abs(float(got[1]) - want) > 1e-9 * 8 * m:
+                        viol(ctx, f"kp_norm(k={kk}, p={p}) of a Hermitian matrix with eigenvalues of both signs differs from the p-norm of the k largest |eigenvalues|",
+                             "kp_norm", {**dh, "k": kk, "p": str(p)}, str(got)[:100], want, "definition: (sum_{i<k} s_i^p)^(1/p), s = |eigenvalues| for Hermitian input")
+            tnh = _psafe(ctx, prng, dh, trace_norm, H)
+            if tnh[0] != "ok" or abs(float(tnh[1]) - float(sh.sum())) > 1e-9 * 8 * m:
+                viol(ctx, "trace_norm of a Hermitian indefinite matrix differs from the sum of |eigenvalues|", "trace_norm", dh, str(tnh)[:100], float(sh.sum()), "definition")
         # majorizes on matrices = majorization of singular values (only when no partial sum is a near tie)
         t = sorted([Fraction(int(x), 2) for x in rng.integers(0, 13, size=int(rng.integers(1, 7)))], reverse=True)
         L = max(len(s), len(t))
